@@ -70,7 +70,7 @@ def gen_proposals(rng, tier):
     fc = {"n_blocks": 2, "n_neurons": 8}
     combos = [("truncated_gaussian", None), ("uniform_nball", None),
               ("truncated_gaussian", {"x": "rescaletobounds", "y": "rescaletobounds"}),
-              ("uniform_nball", {"x": "scale", "y": "rescaletobounds"}),
+              ("uniform_nball", {"x": {"reparameterisation": "scale", "scale": 2.5}, "y": "rescaletobounds"}),
               ("gaussian", {"x": {"reparameterisation": "rescaletobounds", "boundary_inversion": False}, "y": "zscore"})]
     for latent, rp in combos:
         for state in ("trained", "fresh"):
@@ -224,6 +224,9 @@ def replay(data):
     fails = [d for d in res.get("direct", []) if not d["ok"]]
     if "child_error" in res:
         fails.append({"name": "raised", "detail": res["trace"][-300:]})
+    if res.get("non_finite_density"):
+        fails.append({"name": "the flow's log_prob is not finite at ordinary points",
+                      "detail": f"first non-finite layer output: {res['culprit']}; log_prob {res['log_prob']}"})
     print(json.dumps({"case": rp["case"], "failures": fails}, indent=1)[:3000])
     if fails:
         print(f"VIOLATION property={PID} replay=(replayed) {fails[0]['name']}: {fails[0]['detail']}")
